@@ -90,11 +90,29 @@ Theorem C21_defers_once_reverse : forall run,
            run_defers run r s'
              match first, o with
              | None, Exc k p => Some (k, p)
-             | None, Done _ => if st_stale s' then Some (KNil, []) else None
              | _, _ => first
              end)).
 Proof. exact defers_once_reverse. Qed.
 Print Assumptions C21_defers_once_reverse.
+
+(* A deferred callback that succeeds does not alter the result: the rest of the
+   list is processed from its final state with the same pending exception. *)
+Theorem C21_defer_success_contributes_nothing : forall run f r s first s' vs,
+  run (TCall f [] [] []) s = (s', Done vs) ->
+  run_defers run (DCall f :: r) s first = run_defers run r s' first.
+Proof. exact defer_success_contributes_nothing. Qed.
+Print Assumptions C21_defer_success_contributes_nothing.
+
+(* A frame whose deferred callbacks all succeed reports no deferred exception,
+   so the closure call ends with the body's own outcome. *)
+Theorem C21_defers_all_succeed_keep_outcome : forall run ds s,
+  (forall d, In d ds -> match d with
+                        | DRestore _ _ => True
+                        | DCall f => forall s0, exists s1 vs, run (TCall f [] [] []) s0 = (s1, Done vs)
+                        end) ->
+  exists s', run_defers run ds s None = ret s' [].
+Proof. exact defers_all_succeed_keep_outcome. Qed.
+Print Assumptions C21_defers_all_succeed_keep_outcome.
 
 (* defer registers at the front of the frame's list *)
 Theorem C21_defer_registers_front : forall run f s,
@@ -135,6 +153,14 @@ Example C21_example_oracle_restore :
   check_C21 [evt [[69]; [49]; [97]]; evt [[88]; [49]; [97]]]%N = true
   /\ check_C21 [evt [[69]; [49]; [97]]; evt [[88]; [49]; [98]]]%N = false.
 Proof. vm_compute. split; reflexivity. Qed.
+
+(* for x [a b] { defer { put d }; put $x }   ==>  a d b d *)
+Example C21_example_defer_in_loop :
+  let p := [[CFor true 0%N (EList [EStr [97%N]; EStr [98%N]])
+               [[CBuiltin BDefer [ELam [] None [] [[CBuiltin BPut [EStr [100%N]] []]]] []];
+                [CBuiltin BPut [EVar 0%N] []]] None]] in
+  outputs (run_program default_fuel true p) = [VStr [97%N]; VStr [100%N]; VStr [98%N]; VStr [100%N]].
+Proof. vm_compute. reflexivity. Qed.
 
 (* var x = a; with [x = b] [x = c] { put $x }; put $x   ==>  c a *)
 Example C21_example_with_twice :
